@@ -14,6 +14,7 @@ CONSTANTS
   BadPkR = "none"
   Shape = "all"
   Emit = FALSE
+  EmitWiring = FALSE
   Ordered = TRUE
   SetupSMenu <- MC_SetupSMenu
   SetupRMenu <- MC_SetupRMenu
